@@ -834,63 +834,78 @@ def _ops_for(ref, what='all'):
     del numeric
 
 
-def _alg_cases(desc, depth2):
-    """yield (pre, op, rvs, ref) for one collection description"""
+def _alg_cases(desc, part):
+    """yield (pre, op, rvs, ref) for one unit: part None = every single operation on the collection,
+    part (j, J) = the two-operation sequences whose first operation has index j modulo J"""
     rvs, ref = _build(desc)
-    for op in _ops_for(ref, 'all'):
-        yield [], op, rvs, ref
-    if depth2:
-        for op1 in _ops_for(ref, 'first'):
-            try:
-                _, R1 = _run_op(rvs, ref, op1)
-                ref1 = _plain(_extract(R1))
-            except Exception:  # noqa  (reported by the depth-1 case of op1)
-                continue
-            for op2 in _ops_for(ref1, 'second'):
-                yield [op1], op2, R1, ref1
+    if part is None:
+        for op in _ops_for(ref, 'all'):
+            yield [], op, rvs, ref
+        return
+    j, J = part
+    for i1, op1 in enumerate(_ops_for(ref, 'first')):
+        if i1 % J != j:
+            continue
+        try:
+            _, R1 = _run_op(rvs, ref, op1)
+            ref1 = _plain(_extract(R1))
+        except Exception:  # noqa  (reported by the single-operation case of op1)
+            continue
+        for op2 in _ops_for(ref1, 'second'):
+            yield [op1], op2, R1, ref1
 
 
-def _alg_worker(task):
-    start, descs = task
+def _alg_unit(arg):
+    ui, desc, part = arg
     col = _Collector()
-    for off, (desc, depth2) in enumerate(descs):
-        for ci, (pre, op, rvs, ref) in enumerate(_alg_cases(desc, depth2)):
-            col.cases += 1
-            fails, R = _run_op(rvs, ref, op)
-            if not (op['op'] == 'add' and op['form'] == 'dup'):
-                col.nontrivial += 1
-            if len(col.samples) < 3 and ci in (5, 40):
-                col.samples.append('%s %r: %s' % (desc['variant'], ref['blocks'], json.dumps(op)))
-            for fid, clause, detail in fails:
-                col.fail((len(pre), len(_names_of(ref)), start + off, ci), fid, clause, detail,
-                         {'coll': desc, 'pre': pre, 'op': op}, 'bounded_rv_algebra_replay')
+    for ci, (pre, op, rvs, ref) in enumerate(_alg_cases(desc, part)):
+        col.cases += 1
+        fails, R = _run_op(rvs, ref, op)
+        if not (op['op'] == 'add' and op['form'] == 'dup'):
+            col.nontrivial += 1
+        if len(col.samples) < 3 and ci in (5, 40):
+            col.samples.append('%s %r: %s' % (desc['variant'], ref['blocks'], json.dumps(op)))
+        for fid, clause, detail in fails:
+            col.fail((len(pre), len(_names_of(ref)), ui, ci), fid, clause, detail,
+                     {'coll': desc, 'pre': pre, 'op': op}, 'bounded_rv_algebra_replay')
     return col.export()
 
 
-def _alg_domain(tier):
-    """list of (collection description, with depth-2 sequences?)"""
-    if tier == 'thorough':
-        n1, n2full, n2iiv = 5, 4, 5
-    else:
-        n1, n2full, n2iiv = 4, 3, 4
-    dom = []
+def _alg_worker(task):
+    col = _Collector()
+    for unit in task:
+        col.merge(_alg_unit(unit))
+    return col.export()
+
+
+def _alg_bounds(tier):
+    return (5, 4, 5) if tier == 'thorough' else (4, 3, 4)
+
+
+def _alg_units(tier):
+    """list of (index, collection description, part)"""
+    n1, n2full, n2iiv = _alg_bounds(tier)
+    units = []
     for desc in _collections(0, n1):
         n = sum(s for s, _ in desc['blocks'])
+        units.append((len(units), desc, None))
         d2 = n <= n2full or (n <= n2iiv and all(lv == 'IIV' for _, lv in desc['blocks']))
-        if desc['variant'] == 'numeric' and n > n2full:
-            d2 = False
-        dom.append((desc, d2))
-    return dom, (n1, n2full, n2iiv)
+        if d2:
+            J = 1 if n <= 2 else (4 if n == 3 else 16)
+            for j in range(J):
+                units.append((len(units), desc, (j, J)))
+    return units
 
 
 def bounded_rv_algebra(tier):
     import pharmpy.model  # noqa: F401  (import before forking)
-    dom, (n1, n2full, n2iiv) = _alg_domain(tier)
-    # interleave so that the expensive (large, depth-2) collections are spread over the workers
-    nt = NPROC * 6
-    tasks = [(c, nt, tier) for c in range(nt) if c < len(dom)]
+    units = _alg_units(tier)
+    n1, n2full, n2iiv = _alg_bounds(tier)
+    # many small interleaved tasks so that the expensive units are spread over the workers
+    nt = NPROC * 8
+    tasks = [units[c::nt] for c in range(nt) if units[c::nt]]
     col = _Collector()
-    for part in _pool_map(_alg_worker_indexed, tasks):
+    for part in _pool_map(_alg_worker, tasks):
         col.merge(part)
     bound = ('all collections of <= %d variables split in every way into NormalDistribution singletons and '
              'JointNormalDistribution blocks of size 2-3, every level assignment IIV/IOV/RUV per distribution, 3 entry variants '
@@ -899,20 +914,9 @@ def bounded_rv_algebra(tier):
              'name_template), getitem(int, name, symbol, slice, every name subset as list/reversed/set/tuple/symbols), subs(each parameter, '
              'all parameters, parameter->number, variable renames), + (every split into two collections, list/dist/radd forms, duplicate), '
              'etas/epsilons/iiv/iov, JointNormalDistribution getitem(int/name/slice/name subsets); two-operation sequences '
-             '(unjoin|join|getitem, then any of these plus selections/subs/+) for all collections of <= %d variables and the all-IIV '
+             '(unjoin|join|getitem by names, then any RandomVariables operation) for all collections of <= %d variables and the all-IIV '
              'collections of <= %d variables' % (n1, n2full, n2iiv))
     return col.result(bound)
-
-
-def _alg_worker_indexed(arg):
-    c, nt, tier = arg
-    dom, _ = _alg_domain(tier)
-    idx = list(range(len(dom)))[c::nt]
-    col = _Collector()
-    for i in idx:
-        part = _alg_worker((i, [dom[i]]))
-        col.merge(part)
-    return col.export()
 
 
 def bounded_rv_algebra_replay(rp):
